@@ -1163,7 +1163,8 @@ BOUNDARY = {
         "  today from 4 jan to 5 jan", "   from 4 jan to 5 jan", "  x between 4 jan and 5 jan", "from 4 jan to 5 jan",
         "between 4 jan and 5 jan", "4 jan till 5 jan 2019", "at 7 tomorrow", "tomorrow at 7pm in the afternoon",
         "3 pm or later on monday", "monday 3 pm", "this morning at 7am", "seven this afternoon", "tonight at 8",
-        "the end of the day tomorrow", "tomorrow eod", "   the end of today", "1 year 2 months and 3 days",
+        "the end of the day tomorrow", "tomorrow eod", "   the end of today", "tomorrow the end of", "on monday  end of the",
+        "july 4th   the end of", "june 2nd", "monday june 2nd", "1 year 2 months and 3 days",
         "more than 2 days and more than 3 days", "2 hours and a half", "an hour", "3hrs", "few days", "all day",
         "from tomorrow 3pm to friday 5pm", "  between tomorrow 3pm and friday 5pm", "it was last year", "now",
         "today 3pm until tomorrow 4pm between", "", " ", "1", "may", "12:30", "9:00a.", "I'll be back at 9:00a.",
@@ -1338,6 +1339,23 @@ def run(ctx, prop, tasks=None):
         if len(samples) < 12:
             samples.append({'culture': cul, 'query': q, 'function': o['kind'], 'tokens': o.get('tokens')})
     ctx.extra['dtextract']['outside_token_samples'] = samples
+    if samples:
+        from . import spanpipe
+        common.setup_repo_imports()
+        for smp in samples[:10]:
+            try:
+                spans = pipeline_spans(smp['culture'], smp['query'], REF)
+            except Exception:
+                continue
+            ctx.count('dtextract:outside-token-pipeline')
+            bad = [(sp, why) for sp in spans for why in [spanpipe.span_ok(smp['query'], sp[0], sp[1], sp[2])] if why] \
+                if prop == 'C01' else [(spans[i], spans[j]) for i, j in spanpipe.overlaps(spans)]
+            if bad:
+                ctx.report('property', 'subextractor-token-outside-text:%s:%s' % (smp['function'], smp['culture']),
+                           '%s %r: %s handed out tokens %r that are not inside the text; recogniser output %r: %r' % (
+                               smp['culture'], smp['query'], smp['function'], smp['tokens'], spans, bad),
+                           failing_input={'culture': smp['culture'], 'query': smp['query'], 'reference': REF.isoformat(),
+                                          'entities': spans}, property_fails=True)
     leading_blank_followup(ctx, prop)
     if lines:
         ctx.sample({'op': lines[len(lines) // 2][:300], 'model': ans[len(ans) // 2][:200]})
